@@ -436,15 +436,23 @@ def restore_local_names(fnode, recorded, mentioned=None):
                                   "(nested) parameter: " + n.arg)
         _Rename(mapping).visit(fnode)
     if mentioned:
-        now = collections.Counter(n for n, _ in local_bindings(fnode))
-        was = collections.Counter(n for n, _ in recorded)
-        for name in sorted(set(mentioned) & set(was)):
-            if now.get(name, 0) < was[name]:
+        # a binding of a local the contract names has gone AND a new local
+        # is bound in exactly that way: the local was renamed at that place
+        # and the renaming could not be undone above - the contract would
+        # read another variable.  (Bindings that merely disappeared, e.g. an
+        # if / else turned into a conditional expression, are no concern.)
+        after = local_bindings(fnode)
+        rec_names = {n for n, _ in recorded}
+        new_sks = {s_ for n, s_ in after if n not in rec_names}
+        for name in sorted(set(mentioned) & rec_names):
+            gone = collections.Counter(s_ for n, s_ in recorded if n == name) \
+                - collections.Counter(s_ for n, s_ in after if n == name)
+            if any(s_ in new_sks for s_ in gone):
                 raise SourceError(
-                    f"the contract names the local '{name}', bound at "
-                    f"{was[name]} place(s) in the audited version of this "
-                    f"function and at {now.get(name, 0)} now (renamed or "
-                    f"restructured in a way that cannot be followed)")
+                    f"the contract names the local '{name}'; one of its "
+                    f"bindings in the audited version of this function is now "
+                    f"the binding of a differently named local (renamed in a "
+                    f"way that cannot be followed)")
     return mapping
 
 
